@@ -14,6 +14,8 @@ def run(rep):
     n2(rep, w)
     c10.v2(rep, w)
     n4(rep, w)
+    import c06
+    c06.s1(rep, w)      # teardown of a failed run must not leave closures pointing into the discarded stack
 
 
 def vm_field_writes(w, f):
